@@ -10,7 +10,10 @@
  R4 design independence: in compute_bootstrap_errors nothing that reaches a fit or a random draw depends on unexpected_units -
     neither through their row values nor through the category universe (columns of get_dummies over all units);
  R5 belief agreement: county_classification is unknown for unexpected units (BaseElectionModel excludes them at that level);
-    every other use of the aggregate key list on rows that include unexpected units must be under the same test.
+    every other use of the aggregate key list on rows that include unexpected units must be under the same test;
+ R7 summary-contests: the per-contest vectors the national summary reads (error matrices, stored prediction, call and stop vectors)
+    are restricted - where stored or where read - by a mask derived from the expected rows of the indicator, so that a group that
+    exists only through an unexpected unit is shown in the tables but is not a contest (today it is one: open known finding K5).
 """
 from __future__ import annotations
 
@@ -191,6 +194,90 @@ def check(ctx):
     _design_independence(ctx)
     # ---- R5 belief agreement ----------------------------------------------------------------------------
     _belief(ctx)
+    # ---- R7 the national summary counts the contests of the election ----------------------------------------
+    _summary_contests(ctx)
+
+
+# ---------------------------------------------------------------------------------------------------
+PER_CONTEST = ("divided_error_B_1", "divided_error_B_2", "aggregate_pred_margin", "called_contests", "stop_model_call")
+
+
+def _summary_contests(ctx):
+    """R7.summary-contests: an unexpected unit may create a NEW top-level group (a district or state with no baseline unit); the
+    tables show it, and that is all it may do ('every other number in every table unchanged ... never causes the run to fail'). The
+    national summary is computed from per-contest vectors the top-level aggregate step leaves on the model; their rows are the
+    columns of an indicator built from reporting + nonreporting + UNEXPECTED units. So either the stored vectors or every read of them in
+    get_national_summary_estimates has to be restricted by a mask that is derived from the expected rows of the indicator (or from
+    unit_category); otherwise the phantom group is a contest: one more seat, and a weight dictionary of the right size is rejected."""
+    repo = ctx.repo
+    bc = repo.cls(BM, "BootstrapElectionModel")
+    nf = ctx.fn(BM, "BootstrapElectionModel.get_national_summary_estimates")
+    ns = ctx.builder(inline=lambda *a: False).summarize(nf, self_cls=bc)
+    terms = [t for _, _, t, _ in ns.assigns] + [t for _, t, _ in ns.returns] + [c for pc, _, _ in ns.returns + ns.raises for c, _ in pc] \
+        + [t for _, t, _ in ns.raises]
+    SELF_ = ("param", "self")
+
+    _writes = []
+
+    def all_writes():
+        if not _writes:
+            bld = ctx.builder(inline=lambda *a: False)
+            for m in bc.methods.values():
+                for w in bld.summarize(m, self_cls=bc).attr_writes:
+                    _writes.append((m, w))
+        return _writes
+
+    _eo = {}
+
+    def expected_only(mask_attr):
+        """is self.<mask_attr> written from the expected-row slice of an indicator / from unit_category?"""
+        if mask_attr not in _eo:
+            _eo[mask_attr] = _expected_only(mask_attr)
+        return _eo[mask_attr]
+
+    def _expected_only(mask_attr):
+        for m, w in all_writes():
+            if True:
+                if w[1] != mask_attr:
+                    continue
+                txt = ir.show(w[2], maxdepth=12)
+                sliced = any(x[0] == "sub" and x[2][0] == "slice" and x[2][1] == ("const", None) and "n_train" in ir.show(x[2][2], maxdepth=6) or
+                             (x[0] == "sub" and x[2][0] == "slice" and "shape" in ir.show(x[2][2], maxdepth=6) and x[2][1] == ("const", None))
+                             for x in ir.walk(w[2]))
+                if sliced or "unit_category" in txt:
+                    return True
+        return False
+
+    used = set()
+    unmasked = {}
+    for t in terms:
+        for x in ir.walk(t):
+            for ch in ir.children(x):
+                if isinstance(ch, tuple) and ch and ch[0] == "attr" and ch[1] == SELF_ and ch[2] in PER_CONTEST:
+                    used.add(ch[2])
+                    masked = (x[0] == "sub" and x[1] == ch and any(y[0] == "attr" and y[1] == SELF_ and expected_only(y[2]) for y in ir.walk(x[2])))
+                    # `.shape` of the vector only measures it, `is None` only tests for presence
+                    harmless = (x[0] == "cmp" and x[1] in ("is", "is not", "isnot"))
+                    if not masked and not harmless:
+                        unmasked.setdefault(ch[2], ir.show(x, maxdepth=3))
+    ctx.sites("C11.R7", len(used), 3, "per-contest vectors read by get_national_summary_estimates")
+    # alternatively the vectors are already restricted where they are stored
+    stored_masked = set()
+    for m, w in all_writes():
+        if m is nf:
+            continue
+        if True:
+            if w[1] in PER_CONTEST and w[2][0] == "sub" and any(y[0] == "sub" and y[2][0] == "slice" and "n_train" in ir.show(y[2][2], maxdepth=6)
+                                                                  for y in ir.walk(w[2][2])):
+                stored_masked.add(w[1])
+    bad = sorted(a for a in unmasked if a not in stored_masked)
+    ok = not bad
+    ctx.ob("C11.R7.summary-contests", f"{nf.qualname}|per-contest state covers the contests of the election only", ok, nf.where(),
+           "every per-contest vector the national summary reads is restricted to the contests that have baseline units" if ok else
+           f"the summary reads self.{', self.'.join(bad)} as they were left by the top-level aggregate step, whose contest list is the column "
+           f"list of an indicator over reporting + nonreporting + unexpected units: a group that exists only through an unexpected unit "
+           f"(a district or state with no baseline unit) counts as a contest - one more seat, and a weight dictionary with one entry per real "
+           f"contest is rejected")
 
 
 # ---------------------------------------------------------------------------------------------------
